@@ -847,6 +847,10 @@ where
         let (pivot, right) = right.split_at_mut(1);
         let pivot = &mut pivot[0];
 
+        #[cfg(nucleo_verif)]
+        if cmp::max(left.len(), right.len()) > MAX_SEQUENTIAL {
+            crate::verif::point("sort.cancel_load", len as u64);
+        }
         if cmp::max(left.len(), right.len()) <= MAX_SEQUENTIAL {
             // Recurse into the shorter side only in order to minimize the total number of recursive
             // calls and consume less stack space. Then just continue with the longer side (this is
@@ -884,6 +888,8 @@ where
     if mem::size_of::<T>() == 0 {
         return false;
     }
+    #[cfg(nucleo_verif)]
+    crate::verif::point("sort.cancel_load", v.len() as u64);
     if canceled.load(atomic::Ordering::Relaxed) {
         return true;
     }
